@@ -192,14 +192,31 @@ def render_recursion(idx, depth, mode, asy):
             each.call(matching!(_)).applies_unmocked();
         }))"""
         counts = f"vec![1usize, {depth}]"
+    elif mode == "ordered":
+        # an ordered series: the first `depth` calls resolve to the real function, the call it makes
+        # at the innermost level gets the value of the unquantified tail
+        new = f"Unimock::new(Mk::f.next_call(matching!(_)).applies_unmocked().n_times({depth}).then().returns(100u64))"
+        counts = f"vec![{depth + 1}usize]"
+    elif mode == "ordered_tail":
+        # a value first, then an unquantified tail resolving to the real function (twice in all when
+        # a further clause follows): entered through a first call that is answered by the value
+        new = f"Unimock::new((Mk::f.next_call(matching!(_)).returns(7u64).once().then().applies_unmocked().n_times({depth}).then().applies_unmocked(), Mk::f.next_call(matching!(0)).returns(90u64)))"
+        counts = f"vec![{depth + 2}usize, 1]"
     else:
         new = "Unimock::new_partial(Mk::f.each_call(matching!(0)).returns(100u64))"
         counts = "vec![1usize]"
     call = f"<Unimock as Tr>::f(&u, {depth})"
+    pre = ""
+    if mode == "ordered_tail":
+        # depth + 1 levels run the real function, the innermost call f(0) is answered with 90
+        call = f"<Unimock as Tr>::f(&u, {depth + 1})"
+        pre = "if vh::gsupport::block_on(<Unimock as Tr>::f(&u, 200)) != 7 { return Err(\"the first response of the series is the value 7\".into()); }" if asy == "async_fn" else "if <Unimock as Tr>::f(&u, 200) != 7 { return Err(\"the first response of the series is the value 7\".into()); }"
     if asy == "async_fn":
         call = f"vh::gsupport::block_on({call})"
     at = "\n    #[::async_trait::async_trait]" if asy == "async_fn" else ""
     bound = " + Sync" if asy == "async_fn" else ""
+    levels = depth + 1 if mode == "ordered_tail" else depth
+    base = 90 if mode == "ordered_tail" else 100
     return f"""    #[unimock(api=Mk, unmock_with=[real_t])]{at}
     pub trait Tr {{
         {a}fn f(&self, n: u8) -> u64;
@@ -211,14 +228,15 @@ def render_recursion(idx, depth, mode, asy):
     pub fn run() -> Result<(), String> {{
         let _ = take_events();
         let u = {new};
+        {pre}
         let r = {call};
         let events = take_events();
-        let expected: Vec<String> = (1..={depth}u8).rev().map(|n| format!("target{{n}}")).collect();
+        let expected: Vec<String> = (1..={levels}u8).rev().map(|n| format!("target{{n}}")).collect();
         if events != expected {{
             return Err(format!("expected the real function to run once per level {{expected:?}}, events {{events:?}}"));
         }}
-        if r != 100 + 10 * {depth}u64 {{
-            return Err(format!("result {{r}}, expected {{}}", 100 + 10 * {depth}u64));
+        if r != {base} + 10 * {levels}u64 {{
+            return Err(format!("result {{r}}, expected {{}}", {base} + 10 * {levels}u64));
         }}
         // the re-entrant calls were evaluated by the same mock: shared counters
         let snap = unimock::verif::snapshot(&u);
@@ -276,7 +294,7 @@ def run(pid, tier, replay, start):
     for s in shapes(tier):
         insts.append(Instance(len(insts), key(s), render(len(insts), s), s))
     for depth in range(0, 4):
-        for mode in ("strict", "partial"):
+        for mode in ("strict", "partial", "ordered", "ordered_tail"):
             for asy in ("sync", "async_fn"):
                 k = f"recursion/depth{depth}/{mode}/{asy}"
                 insts.append(Instance(len(insts), k, render_recursion(len(insts), depth, mode, asy), {"recv": "ref", "recursion": depth}))
